@@ -1111,7 +1111,36 @@ def rule_time_keeps_its_offset(ctx: Ctx, rep: Report) -> None:
     rep.floor(rule, 1)
 
 
+def rule_value_parsed_whole(ctx: Ctx, rep: Report) -> None:
+    """C05.value_parsed_whole: the value of a psbt key-value pair is one object and
+    nothing after it: the deserializers hand the value's *bytes* to the class
+    parser, which wraps them itself and refuses what follows the object
+    (C05.whole_object). Handed a stream instead (`X.parse(BytesIO(v))`,
+    `bytesio_from_binarydata(v)`), the parser reads one object and stops, the
+    caller's stream being the caller's: a witness utxo followed by garbage is
+    accepted and the garbage dropped on re-serialization."""
+    rule = "C05.value_parsed_whole"
+    n = 0
+    for q, fi in sorted(ctx.prog.functions.items()):
+        if not (q.startswith(("btclib.psbt.psbt_in.", "btclib.psbt.psbt_out.", "btclib.psbt.psbt_utils.", "btclib.psbt.psbt.")) and "deserialize" in fi.name):
+            continue
+        for c in own_nodes(fi.node):
+            # a *class* parser (TxOut.parse, Tx.parse, Witness.parse): the module-level var_int / var_bytes readers
+            # are the deserializers' own stream reading, followed by their own leftover check
+            if isinstance(c, ast.Call) and isinstance(c.func, ast.Attribute) and c.func.attr == "parse" and c.args and isinstance(c.func.value, ast.Name) and c.func.value.id[:1].isupper():
+                n += 1
+                a = c.args[0]
+                stream = isinstance(a, ast.Call) and call_name(a) in ("bytesio_from_binarydata", "BytesIO")
+                if isinstance(a, ast.Name):
+                    stream = any(isinstance(d, ast.Assign) and any(isinstance(t, ast.Name) and t.id == a.id for t in d.targets) and isinstance(d.value, ast.Call) and call_name(d.value) in ("bytesio_from_binarydata", "BytesIO") for d in own_nodes(fi.node))
+                rep.ob(rule, f"{q}:{norm(c.func)}", not stream, fi.where(c), "the parser is handed the value's bytes" if not stream else
+                       f"`{norm(c)[:70]}` hands the parser a stream: it reads one object and leaves the rest, so trailing bytes in the value are accepted and lost")
+    rep.floor(rule, 2)
+
+
 RULES = [
+    ("C05.value_parsed_whole", rule_value_parsed_whole),
+
     ("C05.time_keeps_its_offset", rule_time_keeps_its_offset),
     ("C05.order_kept", rule_order_kept),
     ("C05.count_bound_kind", rule_count_bound_kind),
